@@ -4,7 +4,7 @@ import grid as G
 
 ASSUMPTIONS = [
     'decided: stdx::cmp_* / in_range / safe_to_cast_to equal the mathematical relation for all values (the gate between the widened product and T in get_value_result)',
-    'NOT decided (assumed): checked_int_pow returns base^exp, product returns the exact product, root, everything computed in long double; '
+    'NOT decided (assumed): checked_int_pow<intmax_t> wrap-freedom (undecided on every back end), checked_int_pow returns base^exp, product returns the exact product, root, everything computed in long double; '
     'representable_in / is_integer / is_rational / numerator / denominator are compile-time classifications (type level)',
     'per-instance values of get_value<T>(m) are checked as constants inside every C03-C10 obligation against the independent N, D']
 
@@ -119,7 +119,8 @@ def obligations(tier, seed):
                       body=HDR + 'VF_STATIC_FACT((%s) == %s);\nint main() {}\n' % (expr, 'true' if exp else 'false'), kind='S',
                       contract='static fact: (%s) == %s' % (expr, bool(exp)), functions_under_contract=('au::representable_in / get_value (compile-time)',)))
     # ---- guarded products: outcome OK ==> no multiplication wrapped / overflowed, no division by zero (own loop VCs, int-blast route)
-    for (T, code, sgn) in ((('uint64_t', 'm', False), ('int64_t', 'l', True)) if tier == 'thorough' else (('uint64_t', 'm', False),)):
+    # the intmax_t instantiation (signed division in the guards) stayed undecided after 50 minutes on every back end: not generated, listed as assumed
+    for (T, code, sgn) in (('uint64_t', 'm', False),):
         tgt = '_ZN2au6detail15checked_int_powI%sEENS0_24MagRepresentationOrErrorIT_EES3_m' % code
         bv = '(int64_t)m_base_addr' if sgn else 'm_base_addr'
         rv = '(int64_t)m_result.f1' if sgn else 'm_result.f1'
